@@ -7,20 +7,27 @@ rows; `Spec.Affinity` is SQLite's `sqlite3AffinityType`, `Spec.Ddl` a small gram
 definitions with its renderer.
 
 What is proved: (1) the affinity rules — now the full statement for every declared type SQLite's
-grammar produces, (2) the closing-parenthesis scanner on balanced text, (3) that for `Simple` column
+grammar produces, (2) the closing-parenthesis scanner on balanced text, with any number of block
+comments in it (those that start with "/*/" included, repair 41d65d3; the same comment through the
+other three comment scanners: `parse_comment_block`, `scan_jump_block_comment`,
+`columns_block_comment`), (3) that for `Simple` column
 definitions, with any whitespace between name and type, the definition scanner and
-`ColumnDefinition` recover SQLite's names and affinities.  What is still *not* true of the code, and
-therefore only stated as `ColumnsFullStatement` with a counterexample: the recovery of names for all
-of SQLite's CREATE TABLE syntax (a doubled quote inside a quoted name is enough; further open
-findings: STRICT, "/*/" comments, "/" and "--" inside literals, whitespace runs inside quoted names).
-The model mirrors /repo after the repairs 65104eb … 07e13e3 (C07-01, -04, -05, -06, -08, -10, -11,
--12, -14; C07-15 is in output.py).
+`ColumnDefinition` recover SQLite's names and affinities, (4) that `ColumnDefinition` recovers the
+name of a column written in quotes — double quotes, single quotes, back-ticks — with the quote
+character doubled inside it (repair 687226d), for every name without "/", "--" and whitespace runs.
+What is still *not* true of the code, and therefore only stated as `ColumnsFullStatement` with a
+counterexample: the recovery of names for all of SQLite's CREATE TABLE syntax (a "/" inside a quoted
+name is enough: open finding C07-09, "/" and "--" inside names, literals and expressions; further
+open findings: C07-13 whitespace runs inside quoted names, C07-03 STRICT).
+The model mirrors /repo after the repairs 65104eb … 07e13e3, 687226d, 41d65d3 (C07-01, -02, -04, -05,
+-06, -07, -08, -10, -11, -12, -14; C07-15 is in output.py).
 
 That the schema *rows* of every version are the rows of the page-1 b-tree (type, name, tbl_name,
 rootpage, sql) is the business of Model.Database / Model.Wal (db.dump / vh.dump correspondence,
 C01/C02); this file is about the SQL text of table rows.
 -/
 import SqliteDissect.Proofs.Schema
+import SqliteDissect.Proofs.SchemaQuoted
 
 namespace SqliteDissect.Properties.C07
 open SqliteDissect SqliteDissect.Model.Schema SqliteDissect.Spec.Ddl
@@ -89,6 +96,59 @@ theorem closing_paren_balanced (body rest : Str) (h : balance 0 body = some 0) :
 
 example : balance 0 ['a',' ','I','N','T','(','1','0',',','5',')',',',' ','b'] = some 0 := by decide +kernel
 
+/-- The same with block comments anywhere in the text (`withComments p [(b₁, q₁), …]` is
+`p /*b₁*/ q₁ …`): whatever a comment contains — parentheses, quotes, commas, "--", a "/" as its very
+first character (`/*/ x */`, which before commit 41d65d3 was closed at its third character, finding
+C07-07) — as long as it is one comment for SQLite (no `*/` inside `bᵢ`), and the text outside the
+comments is balanced, the index returned is that of the balancing parenthesis. -/
+theorem closing_paren_comments (p : Str) (segs : List (Str × Str)) (rest : Str)
+    (hb : ∀ s ∈ segs, Spec.contains ['*', '/'] s.1 = false) (h : balance 0 (plainText p segs) = some 0) :
+    closingParen ('(' :: withComments p segs ++ ')' :: rest) = .ok ((withComments p segs).length + 1) := by
+  exact Proofs.Schema.closing_paren_comments p segs rest hb h
+
+def exPlain : Str := ['a', ' ']
+def exSegs : List (Str × Str) :=
+  [(['/', ' ', 'x', ')', ' '], [' ', 'I', 'N', 'T', '(', '1', ')', ',', ' ', 'b', ' ']), ([], [])]
+
+/-- non-vacuity, and the former witness of C07-07: the text `(a /*/ x) */ INT(1), b /**/) r` -/
+example :
+    '(' :: withComments exPlain exSegs ++ [')', ' ', 'r'] =
+      ['(', 'a', ' ', '/', '*', '/', ' ', 'x', ')', ' ', '*', '/', ' ', 'I', 'N', 'T', '(', '1', ')', ',', ' ', 'b', ' ',
+       '/', '*', '*', '/', ')', ' ', 'r'] ∧
+    (∀ s ∈ exSegs, Spec.contains ['*', '/'] s.1 = false) ∧
+    balance 0 (plainText exPlain exSegs) = some 0 ∧
+    (closingParen ('(' :: withComments exPlain exSegs ++ [')', ' ', 'r'])).toOption = some 27 := by
+  refine ⟨by decide +kernel, by decide +kernel, by decide +kernel, by decide +kernel⟩
+
+/-- a comment that is opened by "/*/" and never closed: the scanner runs to the end of the text
+(and answers the last index if a ")" happens to stand there, as for every unclosed comment) -/
+example : (closingParen ['(', 'a', ' ', '/', '*', '/', ' ', 'x', ')']).toOption = some 8 ∧
+    Proofs.Schema.errorOf (closingParen ['(', 'a', ' ', '/', '*', '/', ' ', 'x', ')', ' ']) = some .parseError := by
+  exact ⟨by decide +kernel, by decide +kernel⟩
+
+/-- The other scanners repaired by 41d65d3 on one whole comment `/*` b `*/` (no `*/` inside b; b may
+begin with "/"): `parse_comment_from_sql_segment` returns exactly the comment and what follows it, -/
+theorem parse_comment_block (b rest : Str) (hb : Spec.contains ['*', '/'] b = false) :
+    parseComment ('/' :: '*' :: b ++ '*' :: '/' :: rest) = .ok ('/' :: '*' :: b ++ ['*', '/'], rest) := by
+  exact Proofs.Schema.parseComment_block b rest (by rw [Proofs.Schema.hasSub_eq]; exact hb)
+
+/-- and the definition splitter of `OrdinaryTableRow.__init__`, standing on the "/" that opens the
+comment, moves to the comment's last character (commas and parentheses inside are not seen). -/
+theorem scan_jump_block_comment (b rest : Str) (hb : Spec.contains ['*', '/'] b = false) :
+    scanJump ('/' :: '*' :: b ++ '*' :: '/' :: rest) = .ok (b.length + 3) := by
+  exact Proofs.Schema.scanJump_block b rest (by rw [Proofs.Schema.hasSub_eq]; exact hb)
+
+example : Spec.contains ['*', '/'] ['/', ',', '('] = false ∧
+    (parseComment ['/', '*', '/', ',', '(', '*', '/', ' ', 'x']).toOption = some (['/', '*', '/', ',', '(', '*', '/'], [' ', 'x']) := by
+  exact ⟨by decide +kernel, by decide +kernel⟩
+
+/-- `/*/` without a closing `*/` is Python's ValueError (`str.index`) in `parse_comment_from_sql_segment`,
+in the definition splitter and in the comment stripper of `ColumnDefinition` -/
+example : Proofs.Schema.errorOf (parseComment ['/', '*', '/']) = some .valueError ∧
+    Proofs.Schema.errorOf (scanJump ['/', '*', '/', ' ', 'x']) = some .valueError ∧
+    Proofs.Schema.errorOf (parseColumn ['a', ' ', '/', '*', '/', ' ', 'I', 'N', 'T']) = some .valueError := by
+  exact ⟨by decide +kernel, by decide +kernel, by decide +kernel⟩
+
 /-- For every string: an index returned by `get_index_of_closing_parenthesis` holds a ")". -/
 theorem closing_paren_points (s : Str) (i : Nat) (h : closingParen s = .ok i) : s[i]? = some ')' := by
   exact Proofs.Schema.closing_paren_points s i h
@@ -111,6 +171,21 @@ theorem columns_any_whitespace (d : ColDef) (h : Simple d = true) (t : Str) (hty
     (ws : Str) (hwne : ws ≠ []) (hws : ∀ w ∈ ws, isSpace w = true) :
     ∃ col, parseColumn (d.name ++ ws ++ t) = .ok col ∧ col.name = d.name ∧ col.affinity = d.affinity := by
   exact Proofs.Schema.parseColumn_simple_ws d h t hty ws hwne hws
+
+/-- A block comment between name and type, with or without whitespace around it (`a /*/ x */ INT`,
+`a/**/INT`): the comment stripper of `ColumnDefinition.__init__` takes out the whole comment — also
+when it begins with "/*/" (41d65d3, finding C07-07) — and leaves a separator (07e13e3, C07-08). -/
+theorem columns_block_comment (d : ColDef) (h : Simple d = true) (t : Str) (hty : d.type = some t)
+    (ws1 ws2 b : Str) (hws1 : ∀ w ∈ ws1, isSpace w = true) (hws2 : ∀ w ∈ ws2, isSpace w = true)
+    (hb : Spec.contains ['*', '/'] b = false) :
+    ∃ col, parseColumn (d.name ++ ws1 ++ '/' :: '*' :: b ++ '*' :: '/' :: ws2 ++ t) = .ok col ∧
+      col.name = d.name ∧ col.affinity = d.affinity := by
+  exact Proofs.Schema.parseColumn_simple_comment d h t hty ws1 ws2 b hws1 hws2 hb
+
+/-- the former witness of C07-07: `a /*/ x */ INT` -/
+example : (parseColumn ['a', ' ', '/', '*', '/', ' ', 'x', ' ', '*', '/', ' ', 'I', 'N', 'T']).toOption.map
+    (fun c => (c.name, c.affinity)) = some (['a'], .integer) := by
+  decide +kernel
 
 /-- The definition scanner of `OrdinaryTableRow.__init__` on a body of `Simple` definitions
 separated by ", " ends without error, finds no table constraint and yields, in order, the names and
@@ -145,15 +220,89 @@ example : (parseColumn (exA.name ++ ['\t'] ++ ['I','N','T','E','G','E','R'])).to
     (fun c => (c.name, c.affinity)) = some (['i','d'], .integer) := by
   decide +kernel
 
-/-- The full statement for column lists — every column definition SQLite's grammar allows — is still
-false of the code (open findings C07-02, -03, -07, -09, -13).  Stated for the smallest remaining
-deviation: a quoted column name may contain a doubled quote character. -/
-def ColumnsFullStatement : Prop :=
-  ∀ (name : Str), name ≠ [] →
-    ∃ col, parseColumn ('"' :: Proofs.Schema.escapeDq name ++ ['"']) = .ok col ∧ col.name = name
+/-! ### Quoted column names -/
 
-/-- witness: the column `"x""y"` (SQLite: name `x"y`) is read as `x` -/
+/-- `ColumnDefinition.__init__` on a column whose name is written in quotes (`q` one of `"`, `'`,
+back-tick), every quote character inside the name doubled as SQLite writes it, followed by nothing
+or by a one-word type: the name is the one SQLite means (the doubled character read as one), the
+affinity the one SQLite assigns.  `QuotedSafe`: the name contains no "/", no "--" and no run of two
+or more whitespace characters (what is left of the full statement, see below); everything else —
+the quote character itself, other quote characters, parentheses, commas, a newline, a "-", any
+non-ASCII character — is allowed.  Before commit 687226d `"x""y"` was read as `x` (finding C07-02). -/
+theorem columns_quoted_partial (q : Char) (hq : isQuote q = true) (d : ColDef)
+    (hname : Proofs.Schema.QuotedSafe d.name)
+    (hty : ∀ t, d.type = some t → isIdent t = true ∧ beginsWithKeyword columnKeywords t = false) :
+    ∃ col, parseColumn (renderColQ q d) = .ok col ∧ col.name = d.name ∧ col.affinity = d.affinity := by
+  exact Proofs.Schema.parseColumn_quoted q hq d hname hty
+
+/-- The same with any non-empty run of whitespace characters between the closing quote and the type. -/
+theorem columns_quoted_any_whitespace (q : Char) (hq : isQuote q = true) (d : ColDef)
+    (hname : Proofs.Schema.QuotedSafe d.name) (t : Str) (hty : d.type = some t)
+    (ht : isIdent t = true) (hkw : beginsWithKeyword columnKeywords t = false)
+    (ws : Str) (hwne : ws ≠ []) (hws : ∀ w ∈ ws, isSpace w = true) :
+    ∃ col, parseColumn (quoteName q d.name ++ ws ++ t) = .ok col ∧ col.name = d.name ∧ col.affinity = d.affinity := by
+  exact Proofs.Schema.parseColumn_quoted_any_ws q hq d hname t hty ht hkw ws hwne hws
+
+/-- The name reader shared by table names and index names
+(`_get_master_schema_row_name_and_remaining_sql`) on a quoted name followed by anything that does
+not begin with the same quote character: SQLite's name, and the rest of the statement untouched —
+for every name (no `QuotedSafe` needed: this function neither strips comments nor collapses whitespace). -/
+theorem row_name_quoted (q : Char) (hq : isQuote q = true) (name rest : Str) (hr : rest.head? ≠ some q) :
+    rowNameAndRest (quoteName q name ++ rest) = .ok (name, rest) := by
+  exact Proofs.Schema.rowNameAndRest_quoted q hq name rest hr
+
+def exQ : ColDef := ⟨['x', '"', 'y', '`', ' ', '(', ',', '-', '\n', 'é'], some ['V','a','r','C','h','a','r']⟩
+
+/-- non-vacuity: a name with both kinds of quote characters, a space, a parenthesis, a comma, a
+dash, a newline and a non-ASCII letter is `QuotedSafe`; the former witness of C07-02 -/
+example : Proofs.Schema.QuotedSafe exQ.name := ⟨by decide, by decide +kernel, by decide +kernel⟩
+
+example : (parseColumn (renderColQ '"' ⟨['x', '"', 'y'], some ['I','N','T']⟩)).toOption.map (fun c => (c.name, c.affinity)) =
+    some (['x', '"', 'y'], .integer) ∧
+    renderColQ '"' ⟨['x', '"', 'y'], some ['I','N','T']⟩ = ['"', 'x', '"', '"', 'y', '"', ' ', 'I', 'N', 'T'] := by
+  exact ⟨by decide +kernel, by decide +kernel⟩
+
+def exStatement : Str :=
+  ['C','R','E','A','T','E',' ','T','A','B','L','E',' ','"','t','"','"','1','"',' ','(','"','x','"','"','y','"',' ','I','N','T',',',' ',
+   '\'','i','t','\'','\'','s','\'',' ','T','E','X','T',',',' ','`','a','`','`','b','`',')']
+
+/-- the whole statement `CREATE TABLE "t""1" ("x""y" INT, 'it''s' TEXT, `a``b`)` through `OrdinaryTableRow.__init__` -/
+example :
+    (parseOrdinaryTable ['t', '"', '1'] ['t', '"', '1'] exStatement).toOption.map
+        (fun t => (t.name, t.cols.map (·.name), t.cols.map (·.affinity))) =
+      some (['t', '"', '1'], [['x', '"', 'y'], ['i', 't', '\'', 's'], ['a', '`', 'b']], [.integer, .text, .blob]) := by
+  decide +kernel
+
+/-- The fourth quoting style, `[…]`, has no doubling; its regex is unchanged (`^\[(.*?)\]`), so a
+newline inside a bracket name is still rejected (new open finding C07-16) while the three quote
+styles now read it (`[^Q]` is a negated class) -/
+example : Proofs.Schema.errorOf (parseColumn ['[', 'a', '\n', 'b', ']', ' ', 'I', 'N', 'T']) = some .parseError ∧
+    (parseColumn ['"', 'a', '\n', 'b', '"', ' ', 'I', 'N', 'T']).toOption.map (·.name) = some ['a', '\n', 'b'] := by
+  exact ⟨by decide +kernel, by decide +kernel⟩
+
+/-- unterminated and oddly terminated names, as the regex engine backtracks: `"abc` has no match;
+`"a""` is `"a"` followed by `"`; `"""` is the empty name followed by `"`; `""""` is the name `"` -/
+example :
+    Proofs.Schema.errorOf (rowNameAndRest ['"', 'a', 'b', 'c']) = some .parseError ∧
+    (rowNameAndRest ['"', 'a', '"', '"']).toOption = some (['a'], ['"']) ∧
+    (rowNameAndRest ['"', '"', '"']).toOption = some ([], ['"']) ∧
+    (rowNameAndRest ['"', '"', '"', '"']).toOption = some (['"'], []) := by
+  refine ⟨by decide +kernel, by decide +kernel, by decide +kernel, by decide +kernel⟩
+
+/-- The full statement for quoted column names — every name SQLite accepts inside quotes — is still
+false of the code (open findings C07-09 and C07-13; for column lists also C07-03 STRICT). -/
+def ColumnsFullStatement : Prop :=
+  ∀ (q : Char), isQuote q = true → ∀ (name : Str), name ≠ [] →
+    ∃ col, parseColumn (quoteName q name) = .ok col ∧ col.name = name
+
+/-- witness (C07-09): the column `"a/b"` is rejected — the "/" is taken for the start of a comment -/
 theorem columns_counterexample : ¬ ColumnsFullStatement := by
   exact Proofs.Schema.columns_counterexample
+
+/-- and without "/" and "-" it is still false (C07-13): the column `"a  b"` is read as `a b` -/
+theorem columns_counterexample_whitespace :
+    ¬ ∀ (q : Char), isQuote q = true → ∀ (name : Str), '/' ∉ name → '-' ∉ name →
+      ∃ col, parseColumn (quoteName q name) = .ok col ∧ col.name = name := by
+  exact Proofs.Schema.columns_counterexample_whitespace
 
 end SqliteDissect.Properties.C07
